@@ -109,18 +109,21 @@ impl BackwardEngine {
         let mut goal = QueryParser::parse(query_str)
             .map_err(|e| crate::errors::RuleEngineError::ParseError { message: e })?;
 
-        // Check cache if memoization enabled
-        if self.config.enable_memoization {
-            if let Some(cached) = self.goal_manager.is_cached(query_str) {
-                return Ok(if cached {
-                    QueryResult::success(
-                        goal.bindings.to_map(), // Convert Bindings to HashMap
-                        ProofTrace::from_goal(&goal),
-                        QueryStats::default(),
-                    )
-                } else {
-                    QueryResult::failure(vec![], QueryStats::default())
-                });
+        // Check cache if memoization enabled.
+        //
+        // An answer depends on the facts as well as on the query, so the cache is keyed by
+        // both (and by the knowledge base version). Only negative verdicts are served from
+        // it: a failed proof leaves the facts untouched, so repeating the verdict is exactly
+        // what a new search would do, whereas a positive answer has to derive the facts it
+        // hands back and therefore always runs the search.
+        let memo_key = if self.config.enable_memoization {
+            Some(self.memo_key(query_str, facts))
+        } else {
+            None
+        };
+        if let Some(key) = &memo_key {
+            if self.goal_manager.is_cached(key) == Some(false) {
+                return Ok(QueryResult::failure(vec![], QueryStats::default()));
             }
         }
 
@@ -156,10 +159,11 @@ impl BackwardEngine {
             }
         };
 
-        // Cache result if enabled
-        if self.config.enable_memoization {
-            self.goal_manager
-                .cache_result(query_str.to_string(), search_result.success);
+        // Cache result if enabled (negative verdicts only, see above)
+        if let Some(key) = memo_key {
+            if !search_result.success {
+                self.goal_manager.cache_result(key, false);
+            }
         }
 
         // Build query result
@@ -181,6 +185,46 @@ impl BackwardEngine {
         } else {
             QueryResult::failure(self.find_missing_facts(&goal), stats)
         })
+    }
+
+    /// Cache key of a query: the query text, the knowledge base version and a canonical
+    /// rendering of the facts (map keys sorted, so it does not depend on hash order)
+    fn memo_key(&self, query_str: &str, facts: &Facts) -> String {
+        fn canonical(value: &crate::types::Value, out: &mut String) {
+            use crate::types::Value;
+            match value {
+                Value::Object(map) => {
+                    let mut keys: Vec<&String> = map.keys().collect();
+                    keys.sort();
+                    out.push('{');
+                    for k in keys {
+                        out.push_str(&format!("{:?}:", k));
+                        canonical(&map[k], out);
+                        out.push(',');
+                    }
+                    out.push('}');
+                }
+                Value::Array(items) => {
+                    out.push('[');
+                    for item in items {
+                        canonical(item, out);
+                        out.push(',');
+                    }
+                    out.push(']');
+                }
+                other => out.push_str(&format!("{:?}", other)),
+            }
+        }
+
+        let all = facts.get_all_facts();
+        let mut keys: Vec<&String> = all.keys().collect();
+        keys.sort();
+        let mut key = format!("{:?}@kb{}", query_str, self.knowledge_base.version());
+        for k in keys {
+            key.push_str(&format!(";{:?}=", k));
+            canonical(&all[k], &mut key);
+        }
+        key
     }
 
     /// Find all candidate rules that could prove a goal
